@@ -198,10 +198,16 @@ def block_partitioner(ctx):
              sample='indices = (arange(nsplit) + 1) * block_size')
       stores = [x for x in allv if x.op == 'store' and is_const(x.args[1], -1)]
       oks = False
+      okb = False
+      exp_sizes = spec_term(ev, 'np.ones(ns + 1, dtype=np.int32) * bs', {'ns': e, 'bs': bs})
       for st_ in stores:
         val_ = st_.args[2]
         if val_.op == 'bin' and val_.args[0] == '-' and val_.args[1] is dd and val_.args[2].op == 'sub' and is_const(val_.args[2].args[1], -1):
           oks = True
+          okb = cmpr.same(st_.args[0], exp_sizes)
+      ctx.ob('C06.S1', fi.short, 'announced sizes = nsplit + 1 blocks of block_size (last one overwritten)', okb,
+             'the announced block sizes must be ones(nsplit + 1) * block_size with the last entry replaced by the remainder '
+             '(one size per block that jnp.split produces)', ctx.loc(fi), sample='sizes = ones(nsplit + 1) * block_size')
       ctx.ob('C06.S1', fi.short, 'last block size = d - indices[-1]', oks,
              'the last block must take the remainder d - indices[-1]', ctx.loc(fi),
              sample='sizes[-1] = d - indices[-1]')
